@@ -55,7 +55,7 @@ theorem flatMap_triEdges_to {α : Type} [Scalar α] (f : P2 α → P2 ℝ) (Ts :
     simp only [List.flatMap_cons, List.map_append, List.map_cons, ih]
     rfl
 
-theorem esum_map_swap {G : Type} [AddCommGroup G] {φ : Edge2 → G} (hφ : OddEdge φ) (F : List Edge2) :
+theorem esum_map_swap {G : Type} [AddCommGroup G] {φ : Edge2 → G} (hφ : OddEdge2 φ) (F : List Edge2) :
     esum φ (F.map fun e => (e.2, e.1)) = -esum φ F := by
   induction F with
   | nil => simp
@@ -65,7 +65,7 @@ theorem esum_map_swap {G : Type} [AddCommGroup G] {φ : Edge2 → G} (hφ : OddE
 
 /-- `E − F = 0` as a chain gives `E = F` as chains -/
 theorem chainEq_of_sub_nil {E F : List Edge2}
-    (h : EdgeChainEq (E ++ F.map fun e => (e.2, e.1)) []) : EdgeChainEq E F := by
+    (h : EdgeChainEq2 (E ++ F.map fun e => (e.2, e.1)) []) : EdgeChainEq2 E F := by
   intro G _ φ hφ
   have := h G φ hφ
   rw [esum_append, esum_map_swap hφ, esum_nil] at this
@@ -87,8 +87,8 @@ theorem edgeRevEqb_sound {e g : P2 α × P2 α} (h : edgeRevEqb e g = true) : e 
 
 theorem cancelEdges_sound (f : P2 α → P2 ℝ) :
     ∀ (fuel : Nat) (L : List (P2 α × P2 α)), cancelEdges fuel L = true →
-      EdgeChainEq (L.map (edgeTo f)) []
-  | _, [], _ => EdgeChainEq.refl _
+      EdgeChainEq2 (L.map (edgeTo f)) []
+  | _, [], _ => EdgeChainEq2.refl _
   | 0, _ :: _, h => by simp [cancelEdges] at h
   | fuel + 1, e :: rest, h => by
     unfold cancelEdges at h
@@ -101,17 +101,17 @@ theorem cancelEdges_sound (f : P2 α → P2 ℝ) :
       have ih := cancelEdges_sound f fuel rest' h
       have hx' := edgeRevEqb_sound heq hx
       subst hx'
-      have h1 : EdgeChainEq ((e :: rest).map (edgeTo f))
+      have h1 : EdgeChainEq2 ((e :: rest).map (edgeTo f))
           ((f e.1, f e.2) :: (f e.2, f e.1) :: rest'.map (edgeTo f)) := by
         simp only [List.map_cons]
-        exact EdgeChainEq.perm (by simpa [edgeTo] using (hperm.map (edgeTo f)).cons (edgeTo f e))
-      exact h1.trans ((EdgeChainEq.cancel _ _ _).trans ih)
+        exact EdgeChainEq2.perm (by simpa [edgeTo] using (hperm.map (edgeTo f)).cons (edgeTo f e))
+      exact h1.trans ((EdgeChainEq2.cancel _ _ _).trans ih)
 
 /-- **Soundness of the boundary-chain checker**: the polygon cycle is the boundary chain of the
     triangulation (after transporting the vertices to `ℝ²` by any map). -/
 theorem chainCheck_sound_gen (f : P2 α → P2 ℝ) {vs : List (P2 α)} {Ts : List (Tri2 α)}
     (h : chainCheck vs Ts = true) :
-    EdgeChainEq (edges (vs.map f)) ((Ts.map (triTo f)).flatMap Tri2.bdry) := by
+    EdgeChainEq2 (edges (vs.map f)) ((Ts.map (triTo f)).flatMap Tri2.bdry) := by
   have h0 := cancelEdges_sound heq f _ _ h
   apply chainEq_of_sub_nil
   rw [edges_map, ← flatMap_triEdges_to]
@@ -140,13 +140,13 @@ def castT (t : Tri2 ℚ) : Tri2 ℝ := triTo castP t
 theorem triTo_id (t : Tri2 ℝ) : triTo id t = t := rfl
 
 theorem chainCheck_sound {vs : List (P2 ℝ)} {Ts : List (Tri2 ℝ)} (h : chainCheck vs Ts = true) :
-    EdgeChainEq (edges vs) (Ts.flatMap Tri2.bdry) := by
+    EdgeChainEq2 (edges vs) (Ts.flatMap Tri2.bdry) := by
   have := chainCheck_sound_gen eqb_real_sound id h
   have e1 : triTo (id : P2 ℝ → P2 ℝ) = id := rfl
   rwa [List.map_id, e1, List.map_id] at this
 
 theorem chainCheck_sound_rat {vs : List (P2 ℚ)} {Ts : List (Tri2 ℚ)} (h : chainCheck vs Ts = true) :
-    EdgeChainEq (edges (vs.map castP)) ((Ts.map castT).flatMap Tri2.bdry) :=
+    EdgeChainEq2 (edges (vs.map castP)) ((Ts.map castT).flatMap Tri2.bdry) :=
   chainCheck_sound_gen eqb_rat_sound castP h
 
 /-! ### `ℚ → ℝ`: the model and the spec commute with the cast -/
